@@ -708,7 +708,7 @@ class AvpTime(Avp):
     """
     seconds_since_1900 = ((70 * 365) + 17) * 86400
     # 6h 28m 16s UTC, 7 February 2036, the timestamp when NTP format overflows
-    overflow_timestamp = 2085974896
+    overflow_timestamp = 2085978496
     # NTP formatted integer seconds at 4h 14m 8s UTC, 20 January 1968, the
     # cutoff point where the most significant bit gets set for the first time.
     overflow_detection_cutoff = 2147483648
